@@ -232,6 +232,8 @@ def project(case, s):
     if case.stream not in ("cmpl", "tab") or s in ("[]", "-") or s.startswith(("UNMODELLED", "PANIC", "HANG", "CRASH", "ERR ", "MISSING", "NOT-RUN")):
         return s
     if case.stream == "tab":
+        if case.meta.get("line", "").startswith("cd "):
+            return s        # `cd` starts no helper: the accepted line itself is the observable (directories only after `cd`)
         return s[s.index("A="):] if "A=" in s else s
     out = []
     for cand in s.split("&"):
@@ -411,7 +413,9 @@ def process(tier, rng, cicada):
     cases = []
     plans = []
     fixed = [("u", "sp", "sp ace.txt", False, False), ("s", "di", "dir one", True, False), ("d", "q", 'q"uo te', False, False), ("u", "it", "it's", False, False),
-             ("u", "d", "d ir", True, True), ("u", "é", "éa b", False, False)]
+             ("u", "d", "d ir", True, True), ("u", "é", "éa b", False, False),
+             # after `cd` only directories are offered: a prefix that matches regular files only completes to nothing
+             ("u", "no", "notes.txt", False, True), ("u", "re", "readme one.md", False, True), ("s", "fi", "file x", False, True)]
     for i in range(n):
         if i < len(fixed):
             ctx, prefix, name, is_dir, cd = fixed[i]
@@ -421,7 +425,7 @@ def process(tier, rng, cicada):
             stem = r.choice(["a", "ab", "abc", "x1", "c"])
             name = pty_name(r, stem)
             is_dir = r.chance(1, 3)
-            cd = is_dir and r.chance(1, 2)
+            cd = r.chance(1, 2) if is_dir else r.chance(1, 6)
             prefix = stem[:1 + r.below(len(stem))]
             others = [o for o in (pty_name(r, r.choice(["z", "y", "w"])) for _ in range(r.below(5)))]
         entries = [(name, is_dir)]
